@@ -10,8 +10,11 @@ R4  two waiters are linked into one same-condition group only on the path where 
     arguments are equal or declared equivalent - otherwise a false condition of one would skip the evaluation of the other.
 R5  scan soundness: every iteration of the unlocker's scan finds the waiter false, unlinks it, or clears MU_ALL_FALSE in the value to be
     released; a scan that stops before the end of the queue clears it too (CFG path rule on the scan loop).
-Correctness of the same-condition ring maintenance over all queue contents (merge/split on insert and remove) is not decided, hence not
-"every waiter whose condition became true is woken" as a whole."""
+R6  shape analysis (nsa/ringshape.py, summary segments = all queue lengths) of the three functions that maintain / use the same-condition rings:
+    remove keeps them contiguous runs of the queue and joins neighbours only for an interior singleton, merge joins p-run ++ n-run or nothing,
+    the scan's skip passes over members of the false waiter's ring only.
+That the call sites hand the merge function adjacent runs (enqueue at either end, re-appending the scanned list) is not decided by R6;
+"every waiter whose condition became true is woken" as a whole is therefore not claimed."""
 from .. import util, mumodel, ir as IR
 from ..cfg import cfg_of
 from ..report import Violation, AnalysisBroken
@@ -163,6 +166,149 @@ def check_scan(mod, K, rep, cc, rid):
                                               % (fn.name, b, t, 'the next scan' if bad == h else 'the release'), site='%s/scan-early-exit' % fn.name))
     return n
 
+def _ring_functions(mod):
+    """(remove, merge, skip) functions of the same-condition rings, found by role"""
+    SC = 'waiter.same_condition'
+    def touches_sc(f):
+        return any(i.op == 'getelementptr' and any(st[0] == 'f' and st[1] == SC for st in mod.gep_fields(i)) for i in f.real_insts())
+    def calls(f, name):
+        return any(i.op == 'call' and i.callee == name for i in f.real_insts())
+    def ptr_args(f):
+        return [a for a in f.args if a['ty'].endswith('*')]
+    rem = mrg = skp = None
+    for f in sorted(mod.defined.values(), key=lambda f: sum(1 for _ in f.real_insts())):
+        if not touches_sc(f) or len(ptr_args(f)) != 2 or len(f.args) != 2:
+            continue
+        stores = any(i.op == 'store' for i in f.real_insts())
+        if calls(f, 'nsync_dll_remove_') and rem is None:
+            rem = f
+        elif calls(f, 'nsync_dll_splice_after_') and not calls(f, 'nsync_dll_remove_') and mrg is None:
+            mrg = f
+        elif not stores and not calls(f, 'nsync_dll_splice_after_') and not calls(f, 'nsync_dll_remove_') and skp is None:
+            rets = [i for i in f.real_insts() if i.op == 'ret']
+            if rets and rets[0].ops and f.args[0]['ty'] == f.args[1]['ty']:
+                skp = f
+    return rem, mrg, skp
+
+def check_rings(mod, rep, rid):
+    """R6 - the same-condition rings stay runs of the queue (invariant J of nsa/ringshape.py), for all queue lengths:
+       remove:  removing e from a queue satisfying J leaves J; e's ring loses exactly e; the two neighbours' rings are joined only if e was a
+                ring of its own strictly inside the queue (never across the wrap-around of the circular list), and then as prev-run ++ next-run;
+       merge:   joins the ring ending at p with the ring starting at n as p-run ++ n-run, or leaves both untouched;
+       skip:    after a false evaluation of p the scan continues at an element r behind p such that everything strictly between p and r
+                belongs to p's ring (so only waiters with p's - false - condition are skipped), and changes nothing."""
+    from .. import ringshape as RS
+    rem, mrg, skp = _ring_functions(mod)
+    ri = RS.RingInterp(mod)
+    q, sc = RS.q_of, RS.sc_of
+    def flat(runs):
+        return [x for r in runs for x in r]
+    def judge(fname, label, heap, handle, outs, accepts, extra=None):
+        """accepts: list of (description, runs) - the heap must match one of them; extra(h2, rv) -> None or message"""
+        if not outs:
+            rep.instance(rid, '%s on %s: no terminating path' % (fname, label)); rep.oblig(rid, False)
+            rep.violate(Violation(rid, 'in %s' % fname, '%s does not return on the queue shape %s' % (fname, label), site='%s/no-path' % fname))
+            return
+        for h2, rv in outs:
+            msg = None
+            if isinstance(rv, tuple) and rv and rv[0] == 'error':
+                msg = rv[1]
+            else:
+                diffs = []
+                for desc, runs, hd in accepts:
+                    d = RS.check_state(h2, hd(rv) if callable(hd) else hd, runs)
+                    if d is None:
+                        diffs = None
+                        break
+                    diffs.append('%s: %s' % (desc, d))
+                if diffs is not None:
+                    msg = '; '.join(diffs)
+                elif extra is not None:
+                    msg = extra(h2, rv)
+            rep.instance(rid, '%s on %s -> %s' % (fname, label, 'ok' if msg is None else msg)); rep.oblig(rid, msg is None)
+            if msg is not None:
+                rep.violate(Violation(rid, 'in %s' % fname, '%s on the queue %s (runs of the same-condition rings in brackets): %s - the rings no longer are contiguous runs of the queue, so the scan\'s "skip to the end of the same_condition group" jumps over waiters with other conditions (a waiter whose condition is true is not woken) or revisits a removed waiter' % (fname, label, msg),
+                                      site='%s/ring-shape' % fname))
+    def show(runs):
+        return ' '.join('[' + ','.join(r) + ']' for r in runs)
+    # ---------------- remove
+    if rem is not None:
+        lefts = [[], [['p']], [['p0', 'p']], [['p0', 'SMp', 'p']], [['SL'], ['p']], [['SL'], ['p0', 'SMp', 'p']]]
+        # the list handle (last element) is always a named waiter: an opaque stretch 'SR' is followed by a named tail 'z'
+        rights = [[], [['n']], [['n', 'n1']], [['n', 'SMn', 'n1']], [['n'], ['SR'], ['z']], [['n', 'SMn', 'n1'], ['SR'], ['z']]]
+        eruns = [['e'], ['e', 'x'], ['x', 'e'], ['x', 'e', 'y'], ['e', 'SM1', 'y'], ['x', 'SM1', 'e'], ['x', 'SM1', 'e', 'SM2', 'y']]
+        for er in eruns:
+            for L in lefts:
+                for R in rights:
+                    if len(er) > 1 and (len(L) > 1 or len(R) > 1) and not (L == lefts[4] and R == rights[4]):
+                        continue          # neighbours' internals are irrelevant when e has ring partners; keep one rich context
+                    runs = L + [er] + R
+                    heap = RS.make_heap(runs)
+                    items = flat(runs)
+                    handle = q(items[-1])
+                    rest = [x for x in er if x != 'e']
+                    after = L + ([rest] if rest else []) + R
+                    acc = [('no join', after, lambda rv: rv)]
+                    interior = bool(L) and bool(R)
+                    if not rest and interior:
+                        lp, rn = L[-1], R[0]
+                        if lp not in (['SL'],) and rn not in (['SR'],):
+                            acc.append(('neighbours joined', L[:-1] + [lp + rn] + R[1:], lambda rv: rv))
+                    def extra(h2, rv, _items=items):
+                        if h2.nxt.get('e.q') != 'e.q' or h2.prv.get('e.q') != 'e.q':
+                            return 'the removed element is not a self-linked singleton of the queue list'
+                        if h2.nxt.get('e.sc') != 'e.sc' or h2.prv.get('e.sc') != 'e.sc':
+                            return 'the removed waiter is still linked into a same_condition ring'
+                        return None
+                    outs = ri.call(rem.name, [handle, 'e.q'], heap)
+                    judge(rem.name, show(runs), heap, handle, outs, acc, extra)
+    # ---------------- merge
+    if mrg is not None:
+        for pr in (['p'], ['p0', 'p'], ['p0', 'SMp', 'p']):
+            for nr in (['n'], ['n', 'n1'], ['n', 'SMn', 'n1']):
+                runs = [['SL'], pr, nr, ['SR'], ['z']]
+                heap = RS.make_heap(runs)
+                outs = ri.call(mrg.name, ['p.q', 'n.q'], heap)
+                judge(mrg.name, show(runs), heap, 'z.q', outs, [('left alone', runs, 'z.q'), ('joined', [['SL'], pr + nr, ['SR'], ['z']], 'z.q')])
+        for args, lab in ((['p.q', None], 'n = NULL'), ([None, 'n.q'], 'p = NULL'), ([None, None], 'both NULL')):
+            runs = [['p0', 'p'], ['n', 'n1']]
+            heap = RS.make_heap(runs)
+            outs = ri.call(mrg.name, args, heap)
+            judge(mrg.name, show(runs) + ' ' + lab, heap, 'n1.q', outs, [('left alone', runs, 'n1.q')])
+    # ---------------- skip
+    if skp is not None:
+        pruns = [['p'], ['p', 'x'], ['p', 'SM1', 'x'], ['w', 'p'], ['w', 'p', 'x'], ['w', 'SM1', 'p'], ['w', 'p', 'SM1', 'x'], ['w', 'SM0', 'p', 'SM1', 'x']]
+        for pr in pruns:
+            for L in ([], [['a']], [['SL']]):
+                for R in ([], [['n']], [['n', 'n1']], [['SR'], ['z']]):
+                    runs = L + [pr] + R
+                    heap = RS.make_heap(runs)
+                    handle = q(flat(runs)[-1])
+                    outs = ri.call(skp.name, [handle, 'p.q'], heap)
+                    def extra(h2, rv, _runs=runs, _pr=pr, _handle=handle):
+                        if h2.written:
+                            return 'the scan helper writes to the lists (%s)' % sorted(h2.written)[:3]
+                        seq, ok = RS.queue_seq(h2, _handle)
+                        if not ok or 'p.q' not in seq:
+                            return 'queue not traversable'
+                        i = seq.index('p.q')
+                        mine = set(RS.expand(h2, [q(x) for x in _pr]))
+                        if rv is None:
+                            skipped = seq[i + 1:]
+                        elif rv in seq and seq.index(rv) > i:
+                            skipped = seq[i + 1:seq.index(rv)]
+                        else:
+                            return 'continues at %s, which is not behind p in the queue %s' % (rv, seq)
+                        bad = [x for x in skipped if x not in mine]
+                        if bad:
+                            return 'skips %s, which %s not in the same_condition ring of p' % (bad, 'is' if len(bad) == 1 else 'are')
+                        return None
+                    judge(skp.name, show(runs), heap, handle, outs, [('unchanged', runs, handle)], extra)
+    for nm, f in (('remove', rem), ('merge', mrg), ('skip', skp)):
+        if f is None:
+            print('C06 note: the %s function of the same-condition rings was not found by role; its part of R6 is skipped' % nm)
+    return ri.steps
+
 def run(ctx, rep):
     mod = ctx.mod('C')
     K = ctx.probe
@@ -234,6 +380,9 @@ def run(ctx, rep):
     rep.rule('C06.R5', 'the scan publishes MU_ALL_FALSE only if every waiter left on the queue was found false (per-iteration paths and early exits)')
     check_scan(mod, K, rep, cc, 'C06.R5')
     rep.floor('C06.R5', 4)
+    rep.rule('C06.R6', 'same-condition rings stay contiguous runs of the queue under remove / merge; the scan skips only members of the false waiter\'s ring (shape analysis, all lengths)')
+    check_rings(mod, rep, 'C06.R6')
+    rep.floor('C06.R6', 20)
     rep.floor('C06.R1', 6)
     rep.floor('C06.R2', 2)
     rep.floor('C06.R3', 2)
